@@ -91,7 +91,25 @@ def cache_consistency(prop: str, sc: dict, storage_dir: str, **sig) -> list:
 
 
 def interrupt_facts(out):
-    sig = [(i, e) for i, e in enumerate(out.events) if e[0] == 'sigint']
+    """Instants at which a KeyboardInterrupt was raised in the calling thread: the terminal's SIGINT
+    itself, or - if SIGINT was blocked in the caller then - the moment the mask was restored (several
+    pending arrivals collapse into one).  A SIGINT that the caller ignored is listed too (the caller
+    was interrupted; that nothing was raised is for the oracle to judge)."""
+    ev = out.events
+    sig = []
+    used_unblock = set()
+    for i, e in enumerate(ev):
+        if e[0] != 'sigint':
+            continue
+        status = e[4] if len(e) > 4 else 'delivered'
+        if status == 'pending-in-caller':
+            j = next((k for k in range(i + 1, len(ev)) if ev[k][0] == 'sigint-unblocked'), None)
+            if j is None or j in used_unblock:
+                continue
+            used_unblock.add(j)
+            sig.append((j, e))
+        else:
+            sig.append((i, e))
     return sig
 
 
@@ -135,8 +153,9 @@ def check_process_interrupt(sc, out, facts, d) -> list:
         child_sig = any(e[0] == 'sigint-child' for e in out.events)
         vs.append(O.V('C14', 'wrong-exception', f'run_tasks raised {out.exc["type"]} ({out.exc["msg"][:100]}) instead of KeyboardInterrupt; '
                       f'interrupt #1 landed while main was {sigs[0][1][2]}', backend='process', exc=out.exc['type'],
-                      child_took_signal=child_sig))
-    # no task process is started after the (first) interrupt
+                      child_took_signal=child_sig, start_method=backend))
+    # no task process is started after the (first) interrupt.  If SIGINT was blocked in the calling
+    # thread at that instant the caller is interrupted when the mask is restored.
     for idx in range(first + 1, len(out.events)):
         e = out.events[idx]
         if e[0] == 'pstart':
@@ -191,7 +210,8 @@ def check_process_interrupt(sc, out, facts, d) -> list:
             if f is None or f[1] > left:
                 vs.append(O.V('C14', 'not-terminated', f'worker {w} was still executing at the second interrupt and is still alive when '
                               f'run_tasks raises (second interrupt landed while main was {sigs[1][1][2]}, {gap} main-thread line(s) '
-                              f'after the first)', backend='process', second_before_handler_armed=(gap <= 2)))
+                              f'after the first)', backend='process', second_before_handler_armed=(gap <= 2),
+                              child_took_signal=any(e[0] == 'sigint-child' for e in out.events), start_method=backend))
                 break
     vs += cache_consistency('C14', sc, d, backend='process')
     return vs
